@@ -31,6 +31,18 @@ def resp_batches(mode_quick, mode_thorough):
     return f
 
 
+def conn_batches(quick, thorough):
+    def f(tier):
+        spec = thorough if tier == "thorough" else quick
+        return [{"bin": "pristine", "args": ["conn", g, n], "name": "conn %s %d" % (g, n)} for g, n in spec]
+    return f
+
+
+CONN_ASSUMPTIONS = [
+    "the application is sequential in the model (one request handled at a time, in delivery order); concurrency of handlers is covered by C01/C06/C11",
+    "pristine crate over loopback TCP/UNIX sockets; the client half-closes after sending (or stays open in mode=open) and reads to EOF",
+]
+
 PROPS = {
     "C04": {
         "batches": resp_batches([["resp", "c04", 1500, 0]], [["resp", "c04", 20000, 1], ["resp", "c05", 0, 1]]),
@@ -63,5 +75,62 @@ PROPS = {
         "partial": ["theorem: header policy, declared length, Date/Server counts, constructor lengths",
                     "observed only: Date value is the current time in IMF-fixdate (syntax predicate in Lean, skew <= 2 s in the harness); from_file declares the file's length"],
         "assumptions": [],
+    },
+    "C02": {
+        "batches": conn_batches([("c02", 400), ("mixed", 150)], [("c02", 6000), ("mixed", 2000)]),
+        "replay_bin": "pristine", "need": ["heads", "seq", "addr", "nohang"], "agr_need": ["heads", "seq"],
+        "rule": "grammar-directed request heads (nine methods + extension tokens incl. lower-case, visible-ASCII targets, 1.0/1.1, 0..64 headers with duplicates, "
+                "empty values, colons and inner whitespace, lines > 1 KiB, heads > 64 KiB, random OWS) sent over loopback TCP and UNIX sockets; delivered "
+                "method/url/version/headers/body_length/remote_addr compared with the generator's abstract request and with the model",
+        "required_tags": ["unix:1", "unix:0", "n:3"],
+        "partial": ["theorem: head round trip for every well-formed head (Props/C02)", "observed only: remote_addr equals the client's socket address on TCP and is absent on UNIX sockets"],
+        "assumptions": CONN_ASSUMPTIONS,
+    },
+    "C03": {
+        "batches": conn_batches([("c03", 500), ("mixed", 150)], [("c03", 8000), ("mixed", 3000)]),
+        "replay_bin": "pristine", "need": ["bodies", "heads", "seq", "nohang"], "agr_need": ["bodies", "heads", "seq"],
+        "rule": "body lengths {0,1,..,1023,1024,1025,2047..2049,8191..8193,20000,70000} x framing {Content-Length, chunked with random chunkings/hex case/leading "
+                "zeros/extensions, both, upgrade, none} x read plans (buffer sizes 1..100000, prefixes, over-read to observe EOF) x following pipelined requests",
+        "required_tags": ["body:limited", "body:buffered", "body:chunked", "body:upgrade", "body:empty", "consumed:eof", "consumed:some"],
+        "partial": [], "assumptions": CONN_ASSUMPTIONS,
+    },
+    "C09": {
+        "batches": conn_batches([("c09", 500), ("c03", 100)], [("c09", 8000), ("c03", 2000), ("mixed", 2000)]),
+        "replay_bin": "pristine", "need": ["seq", "wire", "eof", "nohang"], "agr_need": ["seq", "wire", "eof"],
+        "rule": "framings x consumption prefixes (0, 1, len-1, len without EOF, len+1 with EOF, random) x ways of finishing (respond, drop, panic, into_writer) x following pipelined requests",
+        "required_tags": ["body:limited", "body:buffered", "body:chunked", "consumed:none", "consumed:some", "consumed:eof", "fin:drop", "fin:writer", "fin:respond"],
+        "partial": [], "assumptions": CONN_ASSUMPTIONS,
+    },
+    "C10": {
+        "batches": conn_batches([("c10", 100)], [("c10", 2000), ("c16", 300)]),
+        "replay_bin": "pristine", "need": ["seq", "wire", "eof", "nohang", "results"], "agr_need": ["seq", "wire", "eof"],
+        "rule": "every malformed / unsupported class (bad request lines, unknown version tokens, header without colon, unsupported Expect values, HTTP/2.0 and 3.0 "
+                "with and without bodies, non-ASCII bytes) at every position 0..3 of a pipeline, with earlier requests answered immediately and late, followed by further requests",
+        "required_tags": ["class:e400", "class:e417", "class:e505", "class:silent", "st:400", "st:417", "st:505"],
+        "partial": [], "assumptions": CONN_ASSUMPTIONS,
+    },
+    "C12": {
+        "batches": conn_batches([("c12", 500)], [("c12", 8000), ("mixed", 2000)]),
+        "replay_bin": "pristine", "need": ["seq", "wire", "eof", "nohang"], "agr_need": ["seq", "wire", "eof"],
+        "rule": "version {1.0,1.1} x Connection header {absent, close, keep-alive, upgrade, other tokens, lists, letter case, substrings} at every pipeline position, "
+                "arbitrary bytes after the last request, client half-closing or keeping the connection open",
+        "required_tags": ["mode:open", "mode:halfclose", "end:waiting", "end:closed"],
+        "partial": [], "assumptions": CONN_ASSUMPTIONS,
+    },
+    "C16": {
+        "batches": conn_batches([("c16", 100)], [("c16", 1000), ("c10", 300)]),
+        "replay_bin": "pristine", "need": ["seq", "wire", "eof", "nohang"], "agr_need": ["seq", "wire", "eof"],
+        "rule": "whitespace before / inside / after header names (framing headers and others), Content-Length values from the classes {empty, signed, non-digit, mixed, "
+                "list, overflowing, hex, decimal point} alone, next to Transfer-Encoding, and as a second Content-Length; at pipeline positions 0..2, each followed by a would-be smuggled request",
+        "required_tags": ["class:smug", "st:400"],
+        "partial": [], "assumptions": CONN_ASSUMPTIONS,
+    },
+    "C18": {
+        "batches": conn_batches([("c18", 500)], [("c18", 6000)]),
+        "replay_bin": "pristine", "need": ["wire", "bodies", "seq", "nohang"], "agr_need": ["wire", "bodies", "seq"],
+        "rule": "Expect: 100-continue present/absent (letter case) x body length {0,1,10,1024,1025,3000} x Content-Length/chunked x programs {answer without reading, "
+                "as_reader once / several times, partial read, over-read} with a client that withholds the body until the server has sent something",
+        "required_tags": ["st:100", "hold:1", "hold:0"],
+        "partial": [], "assumptions": CONN_ASSUMPTIONS,
     },
 }
